@@ -17,6 +17,7 @@ structure Respects (K : Kern φ ρ ε κ β τ ω) (R : φ → φ → Prop) : Pr
     (K.facInit v a).exn = (K.facInit v b).exn
   factorize : ∀ k m a b, R a b → R (K.factorize k m a).fac (K.factorize k m b).fac ∧
     (K.factorize k m a).ops = (K.factorize k m b).ops ∧ (K.factorize k m a).exn = (K.factorize k m b).exn
+  facDim : ∀ a b, R a b → K.facDim a = K.facDim b
   eig : ∀ a b, R a b → K.eig a = K.eig b
   convTest : ∀ t a b x y, R a b → K.convTest t a x y = K.convTest t b x y
   restartFac : ∀ k vals a b, R a b → R (K.restartFac k vals a).fac (K.restartFac k vals b).fac ∧
@@ -130,6 +131,15 @@ theorem loop_sim (sel : Int) (tol : τ) (rem i nconv nres : Nat) (s1 s2 : St φ 
       | some e => exact ⟨hr1, rfl, rfl, rfl, rfl⟩
       | none => exact ih _ _ _ a1 a2 hr1
 
+theorem refresh_sim (tol : τ) (maxit : Nat) (L1 L2 : LoopRes φ ρ ε κ) (h : SimSt R L1.st L2.st) (hi : L1.i = L2.i)
+    (hn : L1.nconv = L2.nconv) :
+    SimSt R (refresh K c tol maxit L1).1 (refresh K c tol maxit L2).1 ∧ (refresh K c tol maxit L1).2 = (refresh K c tol maxit L2).2 := by
+  unfold refresh
+  rw [hi, convFlags_sim K c hK tol _ _ h]
+  split
+  · exact ⟨⟨h.fac, h.ritzVal, h.ritzVec, h.ritzEst, rfl, h.nmatop, h.niter⟩, rfl⟩
+  · exact ⟨h, hn⟩
+
 omit hK in
 theorem sortRitz_sim (rule : Int) (s1 s2 : St φ ρ ε κ) (h : SimSt R s1 s2) :
     SimSt R (sortRitz K c rule s1).1 (sortRitz K c rule s2).1 ∧ (sortRitz K c rule s1).2 = (sortRitz K c rule s2).2 := by
@@ -160,19 +170,21 @@ theorem compute_sim (sel : Int) (maxit : Nat) (tol : τ) (sorting : Int) (s1 s2 
   subst e1 e2 e3 e4 e5 e6
   unfold compute
   dsimp only
-  obtain ⟨q1, q2, q3⟩ := hK.factorize 1 c.ncv f1 f2 hfac
+  rw [hK.facDim f1 f2 hfac]
+  generalize max 1 (K.facDim f2) = k0
+  obtain ⟨q1, q2, q3⟩ := hK.factorize k0 c.ncv f1 f2 hfac
   rw [q3, q2]
-  cases (K.factorize 1 c.ncv f2).exn with
+  cases (K.factorize k0 c.ncv f2).exn with
   | some e => exact ⟨⟨q1, rfl, rfl, rfl, rfl, rfl, rfl⟩, rfl, rfl, rfl, by intro r hr; cases hr⟩
   | none =>
     dsimp only
     have hr := retrieve_sim K c hK sel
-      ⟨(K.factorize 1 c.ncv f1).fac, rv1, rvec1, rest1, rconv1, nm1 + (K.factorize 1 c.ncv f2).ops, ni1, info1⟩
-      ⟨(K.factorize 1 c.ncv f2).fac, rv1, rvec1, rest1, rconv1, nm1 + (K.factorize 1 c.ncv f2).ops, ni1, info2⟩
+      ⟨(K.factorize k0 c.ncv f1).fac, rv1, rvec1, rest1, rconv1, nm1 + (K.factorize k0 c.ncv f2).ops, ni1, info1⟩
+      ⟨(K.factorize k0 c.ncv f2).fac, rv1, rvec1, rest1, rconv1, nm1 + (K.factorize k0 c.ncv f2).ops, ni1, info2⟩
       ⟨q1, rfl, rfl, rfl, rfl, rfl, rfl⟩
     revert hr
-    generalize retrieve K c sel ⟨(K.factorize 1 c.ncv f1).fac, rv1, rvec1, rest1, rconv1, _, ni1, info1⟩ = p1
-    generalize retrieve K c sel ⟨(K.factorize 1 c.ncv f2).fac, rv1, rvec1, rest1, rconv1, _, ni1, info2⟩ = p2
+    generalize retrieve K c sel ⟨(K.factorize k0 c.ncv f1).fac, rv1, rvec1, rest1, rconv1, _, ni1, info1⟩ = p1
+    generalize retrieve K c sel ⟨(K.factorize k0 c.ncv f2).fac, rv1, rvec1, rest1, rconv1, _, ni1, info2⟩ = p2
     intro hr
     obtain ⟨a1, g1⟩ := p1
     obtain ⟨a2, g2⟩ := p2
@@ -189,10 +201,11 @@ theorem compute_sim (sel : Int) (maxit : Nat) (tol : τ) (sorting : Int) (s1 s2 
       | some e => exact ⟨l1, rfl, l2, l4, by intro r hr; cases hr⟩
       | none =>
         dsimp only
-        have hq := sortRitz_sim K c sorting _ _ l1
+        obtain ⟨m1, m2⟩ := refresh_sim K c hK tol maxit _ _ l1 l2 l3
+        have hq := sortRitz_sim K c sorting _ _ m1
         revert hq
-        generalize sortRitz K c sorting (loop K c sel tol maxit 0 0 0 a1).st = w1
-        generalize sortRitz K c sorting (loop K c sel tol maxit 0 0 0 a2).st = w2
+        generalize sortRitz K c sorting (refresh K c tol maxit (loop K c sel tol maxit 0 0 0 a1)).1 = w1
+        generalize sortRitz K c sorting (refresh K c tol maxit (loop K c sel tol maxit 0 0 0 a2)).1 = w2
         intro hq
         obtain ⟨b1, j1⟩ := w1
         obtain ⟨b2, j2⟩ := w2
@@ -203,9 +216,9 @@ theorem compute_sim (sel : Int) (maxit : Nat) (tol : τ) (sorting : Int) (s1 s2 
         | some e => exact ⟨hq1, rfl, l2, l4, by intro r hr; cases hr⟩
         | none =>
           dsimp only
-          refine ⟨⟨hq1.fac, hq1.ritzVal, hq1.ritzVec, hq1.ritzEst, hq1.ritzConv, hq1.nmatop, ?_⟩, by rw [l3], l2, l4, ?_⟩
+          refine ⟨⟨hq1.fac, hq1.ritzVal, hq1.ritzVec, hq1.ritzEst, hq1.ritzConv, hq1.nmatop, ?_⟩, by rw [m2], l2, l4, ?_⟩
           · dsimp only; rw [hq1.niter, l2]
-          · intro r _; rw [l3]
+          · intro r _; rw [m2]
 
 /-- accessors agree on similar states -/
 theorem accessors_sim (s1 s2 : St φ ρ ε κ) (h : SimSt R s1 s2) (nvec : Nat) :
@@ -288,7 +301,7 @@ theorem compute_raised (sel : Int) (maxit : Nat) (tol : τ) (sorting : Int) (s :
 
 /-- an exception in the initial factorization leaves `compute` unchanged (same object) -/
 theorem compute_propagates_factorize (sel : Int) (maxit : Nat) (tol : τ) (sorting : Int) (s : St φ ρ ε κ) (e : Exn)
-    (h : (K.factorize 1 c.ncv s.fac).exn = some e) : (compute K c sel maxit tol sorting s).out = .error e := by
+    (h : (K.factorize (max 1 (K.facDim s.fac)) c.ncv s.fac).exn = some e) : (compute K c sel maxit tol sorting s).out = .error e := by
   unfold compute; dsimp only; rw [h]
 
 /-- an exception in the factorization's `init` leaves `init` unchanged -/
